@@ -13,6 +13,7 @@ cd "$ROOT/engine"
 go build -o "$SCR/schedinst" ./cmd/schedinst
 "$SCR/schedinst" -repo "$REPO" -out "$SCR" -shims "$ROOT/engine/shim" \
   -pkg dpos/state:sync \
+  -stmt "dpos/state:State.GetAllProducers" \
   -stmt "utils:HeightChanges.commit" \
   -stmt "core/transaction:ReturnVotesTransaction.SpecialContextCheck,VotingTransaction.SpecialContextCheck,VotingTransaction.checkDPoSV2Content" >/dev/null
 go build -tags "verif vsched" ${VERIF_MODFLAGS:-} -overlay "$SCR/overlay.json" -o "$VERIF_BIN" ./checks/c40
